@@ -140,7 +140,13 @@ def integer_carriers(ck):
         if o.kind == 'refused':
             from ..qc import concrete_envs, concretised
             o = run_case(ck, concretised(c, next(concrete_envs([c], ck.rng, 1))))
-        ints = [e for e in o.events if e['kind'] == 'int-arith']
+        # differences are shift-invariant even modulo 2^k ((x+d)-(y+d) = x-y); sums, means, products and spreads are not
+        def is_difference(node):
+            import ast
+            if isinstance(node, ast.BinOp) and isinstance(node.op, ast.Sub):
+                return True
+            return isinstance(node, ast.Call) and getattr(node.func, 'attr', getattr(node.func, 'id', '')) in ('diff', 'ediff1d')
+        ints = [e for e in o.events if e['kind'] == 'int-arith' and not is_difference(e.get('node'))]
         ck.ob('C17.value-shift', c.label, not ints, key=f'{fn_key(c)}:value-shift:integer-dtype-arithmetic',
               what=f'{c.label}: arithmetic on the data runs in the integer dtype of the input '
                    f'({unparse(ints[0]["node"], 70) if ints and ints[0].get("node") is not None else ""}): it wraps around, so adding a constant to all values changes the flags')
